@@ -167,6 +167,12 @@ func TestC04(t *testing.T) {
 			t.Skip("unbuildable")
 		}
 		supported := tgen.Supported(typ, nil) && !tgen.Cyclic(typ, nil)
+		if supported && tgen.PtrRecvByValueNonAddressable(c.T) {
+			// outside the domain by the property's text (the generator avoids it by construction;
+			// this is the backstop, counted)
+			rec.Class("discard:ptr-receiver-marshaler-not-addressable")
+			t.Skip("out of domain")
+		}
 		zero := true
 		if supported {
 			v := tgen.Value(t, typ, tgen.VOpts{})
